@@ -8,7 +8,7 @@ it raise something that is not a JSONPathError).
 
 A violation's kind names the *relaxation of the RFC* that would make the accepted string valid: each kind
 is a pure predicate on the string - "is it in the language of RFC grammar + this one named relaxation
-(and well-typed)?" - tried in a fixed order (single relaxations first, then pairs).
+(and well-typed)?" - tried in a fixed order; every violation gets exactly one kind (see classify).
 """
 
 from __future__ import annotations
@@ -26,7 +26,9 @@ PROP = "c04"
 # --------------------------------------------------------------------------------------------------
 
 RELAXATIONS: List[Tuple[str, str, frozenset]] = [
-    # (kind suffix, extra ABNF, typing relaxations)
+    # (kind suffix, extra ABNF, typing relaxations) - the order is part of the definition of the kinds
+    ("parenthesised-comparand", 'comparable =/ "(" S comparable S ")"\n', frozenset()),
+    ("parenthesised-expression-as-comparand", 'comparable =/ "(" S logical-expr S ")"\n', frozenset()),
     ("dash-in-shorthand-name", 'name-char =/ "-"\n', frozenset()),
     ("not-before-comparison", "basic-expr =/ logical-not-op S comparison-expr\n", frozenset()),
     (
@@ -35,8 +37,6 @@ RELAXATIONS: List[Tuple[str, str, frozenset]] = [
         frozenset(),
     ),
     ("double-not", 'logical-not-op =/ "!" S logical-not-op\n', frozenset()),
-    ("parenthesised-comparand", 'comparable =/ "(" S comparable S ")"\n', frozenset()),
-    ("parenthesised-expression-as-comparand", 'comparable =/ "(" S logical-expr S ")"\n', frozenset()),
     ("negated-comparand", "comparable =/ logical-not-op S comparable\n", frozenset()),
     ("negated-query-as-comparand", "comparable =/ logical-not-op S filter-query\n", frozenset()),
     ("chained-comparison", "comparison-expr =/ comparable 2*(S comparison-op S comparable)\n", frozenset()),
@@ -78,10 +78,13 @@ def classify(q: str) -> str:
     for i in range(n):
         if _explained_by(q, (i,), reg):
             return "%s-accepts-%s" % (PROP, RELAXATIONS[i][0])
+    # no single relaxation explains q: it needs several at once.  A violation still gets exactly ONE kind:
+    # the first member (in the fixed order above) of the first minimal explaining set.  (q is accepted, so
+    # the implementation tolerates every member of the set; naming any of them names an open finding.)
     for size in (2, 3):
         for idx in itertools.combinations(range(n), size):
             if _explained_by(q, idx, reg):
-                return "%s-accepts-%s" % (PROP, "+".join(RELAXATIONS[i][0] for i in idx))
+                return "%s-accepts-%s" % (PROP, RELAXATIONS[idx[0]][0])
     return PROP + "-unclassified"
 
 
